@@ -882,6 +882,10 @@ static void reset_file_context(struct rar5* rar) {
 	rar->cstate.last_write_ptr = 0;
 	rar->cstate.last_unstore_ptr = 0;
 
+	/* Blocks of the previous entry that were unpacked but never handed
+	 * out must not be delivered as data of this one. */
+	clear_data_ready_stack(rar);
+
 	rar->file.redir_type = REDIR_TYPE_NONE;
 	rar->file.redir_flags = 0;
 
